@@ -16,10 +16,6 @@ VARIABLES l, bad
 JTrace == ndJsonDeserialize("trace.ndjson")
 
 \* canonical form of numbers: integers by exact decimal value, floats by flag
-CanonInt(lit) ==
-  LET m == Strip0(IntDigits(lit))
-      d == [i \in 1..Len(m) |-> m[i] + 48]
-  IN IF m = <<>> THEN <<48>> ELSE IF IsNeg(lit) THEN <<MINUS>> \o d ELSE d
 
 RECURSIVE NormV(_)
 NormV(v) ==
